@@ -41,9 +41,9 @@ PROP = dict(
         "16-bit output: exact (lrintf(32768*x), clamped) only while the stream never exceeded full scale, because the 16-bit API soft-clips "
         "with its own memory; otherwise sign agreement and |v| >= 16384 for |x| >= 1 (soft clip maps [1,2] to >= 0.5).",
         "24-bit saturation is accepted at the largest float below 2^31 (2147483520) as well as at INT32_MAX.",
-        "Known finding F5 (positive 32-bit overflow in opus_decode24) and F12 (gain applied twice to the first 5 ms after a CELT <-> "
-        "SILK/hybrid transition without redundancy) are excluded by construction: F5 = samples with 2^23*x >= 2^31 are not compared; F12 = "
-        "the first 5 ms of a packet whose mode class may differ from the decoder's previous mode are not compared when the gain is non-zero.",
+        "Known finding F5 (positive 32-bit overflow in opus_decode24) and F19 (gain applied twice to the first 5 ms after a CELT <-> "
+        "SILK/hybrid transition without redundancy) are excluded by construction: F5 = samples with 2^23*x >= 2^31 are not compared; F19 = "
+        "the first 5 ms of the real frame of a packet whose mode class may differ from the decoder's previous mode (over-approximated from the TOC bytes, packet fates and frame sizes) are not compared when the gain is non-zero.",
         "Packet streams are produced by libopus encoders inside the case (up to two spliced); hand-crafted packets are not used."],
 )
 
